@@ -1,7 +1,38 @@
 """C03 runtime correspondence check (see DESIGN.md)."""
-from . import rtprop
+import os
+from . import rtprop, common, flexrun, rules, rt
 
 THEOREMS = ['FlexVerif.validate_sound', 'FlexVerif.match_conserves']
+
+
+def known_f28(ctx, results):
+    """targeted probe for known finding F28: a %array scanner applies the YYLMAX check to the text it
+    has scanned (look-ahead and the end-of-buffer sentinel included), so whether a token of
+    YYLMAX-1 characters is accepted depends on where the reads end."""
+    flex, src = flexrun.build_flex()
+    work = flexrun.scratch_root()
+    rs = rules.RuleSet()
+    rs.rules = [{'scs': [], 'all': False, 'bol': False, 'head': ('plus', ('chr', 97)), 'trail': None, 'dollar': False},
+                {'scs': [], 'all': False, 'bol': False, 'head': ('chr', 98), 'trail': None, 'dollar': False}]
+    cfg = rt.Config(array=True, yylmax=4)
+    b = rt.build_scanner(flex, src, work, 'c03_f28', rs, cfg, lex_seed=1)
+    if b['status'] != 'ok':
+        return
+    outs = {}
+    for name, sched in (('whole', None), ('split', [3])):
+        ct = rt.case_text(rs, b, cfg, [[97, 97, 97, 98]], ['lex', 'lex', 'lex'], sched=sched)
+        cfn = os.path.join(work, 'c03_f28_%s.case' % name)
+        open(cfn, 'w').write(ct)
+        outs[name] = [l for l in rt.run_real(b['exe'], cfn)['out'] if l]
+    kf = {f['id']: f for f in common.load_known_findings().get('findings', [])}
+    if outs['whole'] != outs['split']:
+        what = ('%array scanner, YYLMAX=4, input "aaab": delivered in one read the tokens are aaa, b; delivered as 3+1 bytes '
+                'the scanner stops with "token too large" (the check counts the end-of-buffer sentinel): '
+                + str(outs['split'][:2]))
+        if kf.get('F28', {}).get('status') == 'known' and 'fatal yylmax' in outs['split'] and 'fatal yylmax' not in outs['whole']:
+            ctx.known_finding(what)
+        else:
+            ctx.violation('YYLMAX probe: token stream depends on read sizes: ' + what, {'whole': outs['whole'], 'split': outs['split']})
 
 
 def run(ctx):
@@ -9,4 +40,5 @@ def run(ctx):
     plan = [('plain', q1, 8), ('ops', q2, 6), ('eof', q3, 4)]
     return rtprop.run(ctx, THEOREMS, plan, 'exploration',
                       'delivery independence: every case runs the real scanner under a buffer size in {1,2,3,4,5,7,8,16,33,16384} and a read schedule (1-byte, small random, larger random, unrestricted); the Lean abstract scanner has no buffer at all, so equality of traces is independence from delivery' + '. Kernel-checked theorems about the abstract scanner (listed under obligations) + differential '
-                      'correspondence of the real generated scanner (ASan/UBSan build) with that model on generated cases.')
+                      'correspondence of the real generated scanner (ASan/UBSan build) with that model on generated cases.',
+                      post=known_f28)
